@@ -106,9 +106,19 @@ fn ids(out_path: &str, threads: usize, per: usize, rounds: usize) {
                 // half of the threads through the Graph API, the others through GRAPH.NODE*ADD
                 let mut got: Vec<u64> = Vec::with_capacity(per);
                 if t % 2 == 0 {
+                    // (every seventh node is removed again at once, on some threads after a snapshot was taken:
+                    // its identifier stays used up)
                     let mut g = Graph::new();
-                    for _ in 0..per {
-                        got.push(g.add_node(0) as u64);
+                    let mut snaps = vec![];
+                    for k in 0..per {
+                        let id = g.add_node(0);
+                        got.push(id as u64);
+                        if k % 7 == 3 {
+                            if t % 4 == 0 {
+                                snaps.push(g.clone());
+                            }
+                            g.remove_node(id);
+                        }
                     }
                 } else {
                     let mut runner = Runner::new();
